@@ -2,7 +2,7 @@
     pexpect/utils.py on every run (Gen/SplitCmd.v). *)
 From Coq Require Import ZArith NArith List Bool.
 Import ListNotations.
-From PV Require Import Base.Chars Gen.SplitCmd Split.Spec Split.Proofs Split.Which Split.WhichProofs.
+From PV Require Import Base.Chars Gen.SplitCmd Split.Spec Split.Proofs Split.Which Split.WhichProofs Launch.Model Launch.Proofs.
 
 (** Quoting any list of non-empty arguments (each in any of the three styles that can express it),
     joining them with non-empty whitespace, with any leading and trailing whitespace, splits
@@ -44,3 +44,27 @@ Theorem C13_which_env_wins : forall is_exec defpath f e os1 os2,
   which is_exec defpath f (Some e) os1 = which is_exec defpath f (Some e) os2.
 Proof. exact which_env_wins. Qed.
 Print Assumptions C13_which_env_wins.
+
+(** What spawn() hands to ptyprocess: a command line built by quoting an argv (any style per argument, any whitespace
+    around) is launched with exactly that argv, its first element resolved on the effective PATH ... *)
+Theorem C13_launch_argv : forall is_exec defpath lead items env osenv a0 rest p,
+  all_space lead = true -> wf items -> argv items = a0 :: rest ->
+  which is_exec defpath a0 env osenv = Some p ->
+  exists name, prepare is_exec defpath (lead ++ body items) [] env osenv = inr (p :: rest, name).
+Proof. exact launch_argv. Qed.
+Print Assumptions C13_launch_argv.
+
+(** ... refused when nothing executable is found ... *)
+Theorem C13_launch_not_found : forall is_exec defpath lead items env osenv a0 rest,
+  all_space lead = true -> wf items -> argv items = a0 :: rest ->
+  which is_exec defpath a0 env osenv = None ->
+  prepare is_exec defpath (lead ++ body items) [] env osenv = inl (LNotFound a0).
+Proof. exact launch_not_found. Qed.
+Print Assumptions C13_launch_not_found.
+
+(** ... and with an explicit argument list nothing is parsed *)
+Theorem C13_launch_explicit_args : forall is_exec defpath command a args env osenv p,
+  which is_exec defpath command env osenv = Some p ->
+  exists name, prepare is_exec defpath command (a :: args) env osenv = inr (p :: a :: args, name).
+Proof. exact launch_explicit_args. Qed.
+Print Assumptions C13_launch_explicit_args.
